@@ -38,7 +38,7 @@ def block_dtypes(x):
     return {str(np.asarray(b).dtype) for b in x.blocks.values()}
 
 
-def expect_dtype(opname, dtype, result, where):
+def expect_dtype(opname, dtype, result, where, args=None):
     import symmray as sr
 
     real = REAL_OF[dtype]
@@ -46,11 +46,13 @@ def expect_dtype(opname, dtype, result, where):
 
     def arr(y, want, what):
         got = block_dtypes(y)
-        require(got <= {want}, sig,
+        want_set = set(want) if isinstance(want, (set, tuple)) else {want}
+        want = sorted(want_set)[0] if len(want_set) == 1 else want
+        require(got <= want_set, sig,
                 lambda: f"{what}: blocks {sorted(got)} but data was {dtype} "
                         f"(expected {want}) {where}")
         if y.blocks and isinstance(y, sr.AbelianArray):
-            require(y.dtype == want or y.dtype in got, sig + ":property",
+            require(y.dtype in want_set or y.dtype in got, sig + ":property",
                     lambda: f"x.dtype={y.dtype}")
 
     if opname in ("svd", "svd_truncated"):
@@ -88,7 +90,14 @@ def expect_dtype(opname, dtype, result, where):
     elif opname == "multiply_diagonal":
         # the diagonal vector of the catalogue is float64: numpy promotion of
         # the two operand dtypes is the expected result type
-        arr(result, str(np.result_type(dtype, "float64")), opname)
+        prom = str(np.result_type(dtype, "float64"))
+        if isinstance(args, dict) and not args.get("sizes"):
+            # a vector without any block has no element type of its own:
+            # blocks of the array's type or of the promoted type are both
+            # "the type of the data they join"
+            arr(result, (dtype, prom), opname)
+        else:
+            arr(result, prom, opname)
     else:
         for y in ops.arrays_in(result):
             arr(y, dtype, opname)
@@ -135,7 +144,8 @@ def law_catalogue(ch):
                         f"{r} after {done + [op.name]}")
                 ch.count(f"raised:{op.name}")
                 continue
-            expect_dtype(op.name, dtype, r, f"after {done + [op.name]}")
+            expect_dtype(op.name, dtype, r, f"after {done + [op.name]}",
+                         args=args)
             done.append(op.name)
             nxt = [y for y in ops.arrays_in(r) if ops.is_arr(y)]
             if nxt and op.group != "linalg" and op.name not in (
